@@ -77,7 +77,7 @@ func (t *totals) add(ep, kind, msg, input string) {
 
 func specEntryPoints(t *totals, text string, gendir string) {
 	t.inputs++
-	budget := 10 * time.Second
+	budget := totalityBudget
 	k, m := guarded(budget, func() (bool, error) {
 		p, err := ebnfparser.New("t.ebnf", strings.NewReader(text))
 		if err != nil {
@@ -135,7 +135,7 @@ func specEntryPoints(t *totals, text string, gendir string) {
 
 func patternEntryPoints(t *totals, pat string) {
 	t.inputs++
-	budget := 10 * time.Second
+	budget := totalityBudget
 	k, m := guarded(budget, func() (bool, error) {
 		n, err := nfa.Parse(pat)
 		if err == nil && n != nil {
@@ -164,8 +164,11 @@ func patternEntryPoints(t *totals, pat string) {
 
 // totality: every single-byte deletion, replacement, insertion and every truncation of the given specifications
 // (and the specifications/patterns themselves) through every entry point, with panics and hangs detected.
+var totalityBudget = 10 * time.Second
+
 func cmdTotality(args []string) error {
 	fs := flag.NewFlagSet("totality", flag.ContinueOnError)
+	budgetS := fs.Int("budget", 10, "seconds an entry point may take before it counts as not returning")
 	in := fs.String("in", "", "ndjson of {id, kind: spec|pattern|rawspec, text}")
 	out := fs.String("out", "", "summary json")
 	shard := fs.String("shard", "0/1", "i/n")
@@ -178,6 +181,7 @@ func cmdTotality(args []string) error {
 	if _, err := fmt.Sscanf(*shard, "%d/%d", &shI, &shN); err != nil || shN < 1 {
 		return fmt.Errorf("bad -shard")
 	}
+	totalityBudget = time.Duration(*budgetS) * time.Second
 	t := &totals{counts: map[string]int{}}
 	n := 0
 	err := readNDJSON(*in, func(line []byte) error {
